@@ -71,6 +71,12 @@ def gen_spec(rng, kind=None, nvars=None, mag="small", max_dom=3, name="r0"):
     if nvars is None:
         nvars = rng.randint(1, 4) if kind not in ("conditional",) else rng.randint(2, 4)
     vars_ = draw_vars(rng, nvars, max_dom)
+    if kind in ("expr", "nary_expr", "expr_table", "conditional") and len(vars_) >= 2 and rng.random() < 0.25:
+        # two names that differ only by case (t / T): any case-insensitive ordering would tie on them
+        lo = rng.choice(["t", "x", "q", "k"])
+        others = [v[0] for v in vars_[2:]]
+        if lo not in others and lo.upper() not in others:
+            vars_[0][0], vars_[1][0] = (lo, lo.upper()) if rng.random() < 0.5 else (lo.upper(), lo)
     spec["vars"] = vars_
     if kind in ("matrix", "expr_table", "func_pos", "func_kwargs", "func_partial", "unary_func", "func_pos_named", "func_named_kwargs", "func_kwonly"):
         spec["table"] = {key_of(vars_, a): draw_value(rng, mag) for a in all_assignments(vars_)}
@@ -102,7 +108,7 @@ def gen_spec(rng, kind=None, nvars=None, mag="small", max_dom=3, name="r0"):
         if len(vars_) < 2:
             vars_ = draw_vars(rng, rng.randint(2, 4), max_dom)
             spec["vars"] = vars_
-        args = rng.sample(["p", "alpha", "beta", "zz", "a1", "c", "kk", "b", "arg9", "arg10"], len(vars_))
+        args = rng.sample(["p", "P", "alpha", "beta", "zz", "a1", "c", "C", "kk", "b", "B", "arg9", "arg10"], len(vars_))
         coefs = [rng.randint(1, 9) * (10 ** i) for i in range(len(args))]
         rng.shuffle(coefs)
         terms = ["%d * %s" % (c, n) for c, n in zip(coefs, args)]
